@@ -104,6 +104,12 @@ func (b *backend) readLine(d time.Duration) (string, bool) {
 }
 
 type solverSet struct {
+	inc      *backend // incremental primary (push/pop within one path)
+	incPath  int64
+	incDecls int
+	incConds int
+	incOff   bool // the incremental solver answered unknown: one-shot for the rest of this path
+	IncQ     int64
 	backends []*backend
 	Queries  int64
 	Sat      int64
@@ -130,6 +136,10 @@ func newSolverSet(capMs int) *solverSet {
 		{name: "cvc5-bvint", argv: []string{"cvc5", "--lang=smt2", "--incremental", "--produce-models", "--solve-bv-as-int=sum", "--bv-print-consts-as-indexed-symbols"}, preamble: cvc5Preamble},
 		{name: "z3-old", argv: []string{"z3", "-in"}, preamble: z3Preamble},
 	}
+	s.inc = &backend{name: "z3-new-inc", argv: []string{"z3-new", "-in"}, preamble: z3Preamble}
+	if os.Getenv("GOSE_NOINC") != "" {
+		s.inc = nil
+	}
 	if p := os.Getenv("GOSE_SMTLOG"); p != "" {
 		n := atomic.AddInt64(&solverSeq, 1)
 		s.logf, _ = os.Create(fmt.Sprintf("%s.%d.smt2", p, n))
@@ -138,6 +148,9 @@ func newSolverSet(capMs int) *solverSet {
 }
 
 func (s *solverSet) close() {
+	if s.inc != nil && s.inc.cmd != nil {
+		s.inc.kill()
+	}
 	for _, b := range s.backends {
 		if b.cmd != nil {
 			b.kill()
@@ -430,4 +443,109 @@ func modelUint(v string) (uint64, bool) {
 		return u, err == nil
 	}
 	return 0, false
+}
+
+// checkPath decides decls ∧ conds ∧ extra.  decls and conds only ever grow within one pathID, so
+// the primary keeps them asserted and each query is push / assert extra / check-sat / pop.
+// An unknown from the incremental solver falls back to the one-shot portfolio for the rest of the path.
+func (s *solverSet) checkPath(pathID int64, decls, conds []string, extra string, getvals []string) (string, map[string]string) {
+	oneShot := func() (string, map[string]string) {
+		as := conds
+		if extra != "" {
+			as = append(append(make([]string, 0, len(conds)+1), conds...), extra)
+		}
+		return s.check(decls, as, getvals)
+	}
+	b := s.inc
+	if b == nil {
+		return oneShot()
+	}
+	if pathID != s.incPath || len(decls) < s.incDecls || len(conds) < s.incConds || b.cmd == nil {
+		s.incPath, s.incDecls, s.incConds, s.incOff = pathID, 0, 0, false
+		if b.cmd == nil {
+			if err := b.start(); err != nil {
+				s.inc = nil
+				return oneShot()
+			}
+		}
+		io.WriteString(b.in, fmt.Sprintf("(reset)\n(set-option :timeout %d)\n", 1500))
+	}
+	if s.incOff {
+		return oneShot()
+	}
+	t0 := time.Now()
+	var sb strings.Builder
+	for _, d := range decls[s.incDecls:] {
+		sb.WriteString(d)
+		sb.WriteByte('\n')
+	}
+	for _, c := range conds[s.incConds:] {
+		sb.WriteString("(assert ")
+		sb.WriteString(c)
+		sb.WriteString(")\n")
+	}
+	s.incDecls, s.incConds = len(decls), len(conds)
+	sb.WriteString("(push 1)\n")
+	if extra != "" {
+		sb.WriteString("(assert " + extra + ")\n")
+	}
+	sb.WriteString("(check-sat)\n")
+	if s.logf != nil {
+		fmt.Fprintf(s.logf, "; ---- inc query\n%s", sb.String())
+	}
+	if _, err := io.WriteString(b.in, sb.String()); err != nil {
+		b.kill()
+		return oneShot()
+	}
+	res := ""
+	for res == "" {
+		l, ok := b.readLine(6 * time.Second)
+		if !ok {
+			b.kill()
+			s.incOff = true
+			return oneShot()
+		}
+		l = strings.TrimSpace(l)
+		switch {
+		case l == "sat" || l == "unsat" || l == "unknown":
+			res = l
+		case strings.HasPrefix(l, "(error"):
+			b.kill()
+			s.incOff = true
+			return oneShot()
+		}
+	}
+	var model map[string]string
+	if res == "sat" && len(getvals) > 0 {
+		io.WriteString(b.in, "(get-value ("+strings.Join(getvals, " ")+"))\n(echo \"@@end\")\n")
+		var mb strings.Builder
+		for {
+			l, ok := b.readLine(20 * time.Second)
+			if !ok || strings.HasPrefix(strings.TrimSpace(l), "(error") {
+				b.kill()
+				s.incOff = true
+				return oneShot()
+			}
+			if strings.Contains(l, "@@end") {
+				break
+			}
+			mb.WriteString(l)
+		}
+		model = parseModel(mb.String())
+	}
+	io.WriteString(b.in, "(pop 1)\n")
+	if res == "unknown" {
+		s.incOff = true
+		return oneShot()
+	}
+	s.Queries++
+	s.IncQ++
+	if res == "sat" {
+		s.Sat++
+	} else {
+		s.Unsat++
+	}
+	s.PerBack[b.name]++
+	s.Time += time.Since(t0)
+	return res, model
 }
